@@ -15,7 +15,16 @@ EXTRA_CMDS = ["(get-model)", "(get-value (x0))", "(get-unsat-core)", "(get-proof
               "(check-sat-assuming (b0))", "(reset)", "(get-assertions)", "(set-option :random-seed 3)", "(assert (! b0 :named N1))",
               "(assert (! (not b0) :named N2))", "(set-logic QF_LRA)", "(declare-const c1 Bool)", "(declare-fun arr () (Array Int Int))",
               "(assert (= (select arr 0) 1))", "(assert (bvult #b0101 #x5))", "(get-value (b0 (not b0)))", "(set-option :produce-interpolants true)",
-              "(set-option :produce-unsat-cores true)", "(set-option :interpolation-lra-factor \"1\")", "(set-option :incremental false)"]
+              "(set-option :produce-unsat-cores true)", "(set-option :interpolation-lra-factor \"1\")", "(set-option :incremental false)",
+              # commands that are almost right: wrong number of groups / arguments / attribute values, unbuildable terms, awkward tokens
+              "(get-interpolants N1)", "(get-interpolants)", "(get-value (1.5))", "(get-value ((as x0 Int)))", "(get-value ((as b0 Bool) (as x0 Real)))",
+              "(assert (! b0 :named))", "(assert (! b0 :named %s))", "(assert (! b0 :named |%d %s|))", "(assert %s)", "(assert (%d%s true))",
+              "(set-option :produce-assignments true)", "(get-assignment)", "(declare-fun a2 () (Int Int))", "(declare-fun a3 () (Array Int))",
+              "(declare-sort P 1)", "(declare-fun a4 () (P Int))", "(declare-fun a5 () P)", "(assert (= x0 (div x0)))", "(assert (= x0 (div x0 2 3)))",
+              "(assert (= x0 (mod x0)))", "(assert (= x0 (- x0)))", "(assert (= x0 (/ x0)))", "(set-option :random-seed -7)", "(set-option :random-seed 0)",
+              "(echo \"x\\y\")", "(echo \"a\\\\b\")", "(assert (= x0 007))", "(assert (= x0 -0))", "(assert (> x0 00.50))", "(assert (= x0 1/00))",
+              "(get-value ((! b0 :named vv)))", "(assert (forall ((y Int)) true))", "(assert (let ((true false)) true))", "(declare-fun x0 () Bool)",
+              "(declare-fun |a b| () Int)", "(declare-fun |a b| () Bool)", "(assert (as |a b| Bool))", "(push 100000)", "(check-sat-assuming ())"]
 
 
 def base_script(rng, corpus_files):
@@ -45,8 +54,50 @@ def base_script(rng, corpus_files):
 
 
 def mutate(rng, text):
-    k = rng.randint(0, 9)
+    k = rng.randint(0, 13)
     if not text:
+        return text
+    if k == 10:                                       # a symbol is replaced by a token that is awkward for printing / scanning / arithmetic
+        toks = re.findall(r"(?<![\w.|])[A-Za-z][A-Za-z0-9_]*(?![\w.|])", text)
+        if toks:
+            a = rng.choice(toks)
+            return text.replace(a, rng.choice(["%s", "%d%s", "%n", "|%s %d|", "007", "-0", "00.5", "1/00", "(as x0 Int)", "(as b0 Bool)", "|x y|", ":named", "!"]), 1)
+        return text
+    if k == 11:                                       # one argument of an application is dropped or repeated
+        opens = [i for i, c in enumerate(text) if c == "("]
+        for _try in range(6):
+            if not opens:
+                break
+            i = rng.choice(opens)
+            depth, j = 0, i
+            while j < len(text):
+                depth += text[j] == "("; depth -= text[j] == ")"
+                if depth == 0:
+                    break
+                j += 1
+            inner_txt = text[i + 1:j]
+            items, d, cur = [], 0, ""
+            for c in inner_txt:
+                if c in " \n\t" and d == 0:
+                    if cur: items.append(cur); cur = ""
+                    continue
+                d += c == "("; d -= c == ")"; cur += c
+            if cur: items.append(cur)
+            if len(items) >= 2 and j < len(text):
+                n = rng.randrange(1, len(items))
+                if rng.random() < 0.5:
+                    del items[n]
+                else:
+                    items.insert(n, items[n])
+                return text[:i] + "(" + " ".join(items) + ")" + text[j + 1:]
+        return text
+    if k == 12:                                       # text after the last command / other line ends
+        return text + rng.choice(["foo \"bar\" #b2\n", "x\n", ")\n", "(\n", "; only a comment\n", "  \n\t\n"]) if rng.random() < 0.6 else text.replace("\n", "\r\n")
+    if k == 13:                                       # the same name with another sort, used qualified afterwards
+        m = re.search(r"\(declare-fun (\S+) \(\) (Int|Real|Bool)\)", text)
+        if m:
+            other = "Bool" if m.group(2) != "Bool" else "Int"
+            return text.replace(m.group(0), m.group(0) + f"\n(declare-fun {m.group(1)} () {other})\n(assert (= (as {m.group(1)} {m.group(2)}) (as {m.group(1)} {m.group(2)})))", 1)
         return text
     if k == 0:
         return text                                   # unmutated
@@ -109,6 +160,32 @@ def lexically_broken(text):
     return par != 0 or qsym or string
 
 
+def trailing_garbage(text):
+    """the text is lexically balanced but something other than white space and comments follows its last command"""
+    par, comment, qsym, string, esc, last = 0, False, False, False, False, -1
+    for i, c in enumerate(text):
+        if comment:
+            comment = c != "\n"; continue
+        if qsym:
+            qsym = c != "|"; continue
+        if string:
+            if esc: esc = False
+            elif c == "\\": esc = True
+            elif c == '"': string = False
+            continue
+        if c == ";": comment = True
+        elif c == "|": qsym = True
+        elif c == '"': string = True
+        elif c == "(": par += 1
+        elif c == ")":
+            par -= 1
+            if par == 0: last = i
+    if par != 0 or qsym or string or last < 0:
+        return False
+    rest = re.sub(r";[^\n]*", "", text[last + 1:])
+    return bool(rest.strip(" \t\n\r"))
+
+
 def run_one(binary, data, mode, timeout):
     env = dict(os.environ, ASAN_OPTIONS="detect_leaks=0:abort_on_error=0:exitcode=99", UBSAN_OPTIONS="print_stacktrace=1:exitcode=98")
     p = common.WORK / f"c18-{os.getpid()}.smt2"
@@ -155,6 +232,9 @@ def run_case(args):
         if (rc == 0) != (ndiag == 0):
             res["problems"].append({"what": f"{mode} mode: exit status {rc} with {ndiag} diagnostics on standard output", "kind": "status",
                                     "stdout": out[-600:]})
+        if trailing_garbage(text) and ndiag == 0 and "(exit)" not in text and "\x00" not in text:
+            res["problems"].append({"what": f"{mode} mode: text that follows the last command gets no diagnostic", "kind": "silent",
+                                    "stdout": out[-300:]})
         if lexically_broken(text) and ndiag == 0 and "(exit)" not in text:
             res["problems"].append({"what": f"{mode} mode: lexically broken input (unbalanced parentheses / quotes) gets no diagnostic", "kind": "silent",
                                     "stdout": out[-300:]})
